@@ -39,6 +39,16 @@ def c06_1(cx):
     e = cx.fn(r"^function::execute::<impl function::IngredientImpl<C>>::execute$")
     q = cx.one_call(e, r"execute_query$", "execute_query in execute")
     cx.flow(e, cx.arg(q, 3), [r"^std::option::Option::<T>::map\(\$4, closure:"], [], "plain execution seeds from opt_old_memo", q)
+    em = cx.one_call(e, r"execute_maybe_iterate$", "execute_maybe_iterate in execute")
+    cx.flow(e, cx.arg(em, 2), [r"^\$4$"], [], "cycle execution seeds from opt_old_memo", em)
+    # the old memo handed to execute is whatever the table holds for the key - also a memo whose VALUE
+    # was evicted still carries the tracked-struct ids and outputs of the previous execution
+    for xs in cx.sites(cx.facts.call_sites_of(r"^function::execute::<impl function::IngredientImpl<C>>::execute$"), 2, "callers of execute"):
+        o = cx.arg(xs, 3)
+        if xs.body.path.endswith("fetch_cold"):
+            cx.flow(xs.body, o, [r"^function::memo::<impl function::IngredientImpl<C>>::get_memo_from_table_for\(\$1, \$2, \$5, \$6\)$"], [r"Option::<T>::filter\(", r"Option::None"], "fetch_cold passes the key's current memo (unfiltered) as the old memo", xs)
+        else:
+            cx.flow(xs.body, o, [r"^Option::Some\{0: function::memo::ErasedMemo::<'memo>::downcast\(.*maybe_changed_after_cold::inner\(.*memo_slot\(\$1, \$2, key::DatabaseKeyIndex::key_index\(\$5\), \$7\)"], [r"Option::None"], "maybe_changed_after_cold passes the memo it failed to verify as the old memo", xs)
     g = cx.fn(r"^zalsa_local::ActiveQueryGuard::<'me>::seed_tracked_struct_ids$")
     cb = cx.closure_passed_to(g, r"with_query_stack_unchecked_mut$")
     sc = cx.one_call(cb, r"^tracked_struct::IdentityMap::seed$", "IdentityMap::seed call")
